@@ -35,7 +35,8 @@ func init() {
 				{Name: "flow-inserted-from-stats", File: "firewall.go", Old: "\tconntrackCount := len(conntrack.Conns)\n", New: "\tconntrackCount := len(conntrack.Conns)\n\tconntrack.Conns[firewall.Packet{}] = &conn{}\n", Rule: "C18.track-allowed"},
 				{Name: "cache-never-reset", File: "firewall/cache.go", Old: "\t\t\tc.cache = make(ConntrackCache, ll)\n", New: "", Rule: "C18.cache-reset"},
 				{Name: "fragments-accepted-without-verdict", File: "firewall.go", Old: "\tif f.inConns(fp, h, caPool, localCache) {\n\t\treturn nil\n\t}", New: "\tif f.inConns(fp, h, caPool, localCache) || fp.Fragment {\n\t\treturn nil\n\t}", Rule: "C18.verdict"},
-				{Name: "untracked-icmp-honoured", File: "firewall.go", Old: "\tif !ok {\n\t\tconntrack.Unlock()\n\t\treturn false\n\t}\n\n\tif c.rulesVersion != f.rulesVersion {", New: "\tif !ok {\n\t\tconntrack.Unlock()\n\t\treturn fp.Protocol == firewall.ProtoICMP\n\t}\n\n\tif c.rulesVersion != f.rulesVersion {", Rule: "C18.honour"},
+				{Name: "idle-flow-honoured", File: "firewall.go", Old: "\tif !c.Expires.After(time.Now()) {\n", New: "\tif false && !c.Expires.After(time.Now()) {\n", Rule: "C18.expiry"},
+				{Name: "untracked-icmp-honoured", File: "firewall.go", Old: "\tif !ok {\n\t\tconntrack.Unlock()\n\t\treturn false\n\t}\n\n\tif !c.Expires.After(time.Now()) {", New: "\tif !ok {\n\t\tconntrack.Unlock()\n\t\treturn fp.Protocol == firewall.ProtoICMP\n\t}\n\n\tif !c.Expires.After(time.Now()) {", Rule: "C18.honour"},
 			}
 		},
 	})
